@@ -198,6 +198,102 @@ pub fn many_unique(_seed: u64) -> Vec<LargeInput> {
     out
 }
 
+/// sizes straddling typical thresholds (T-1, T, T+1, T+2 for T = 16 .. 1024) with edits at the
+/// very ends and in the middle, alone and combined
+pub fn threshold_sweep(_seed: u64) -> Vec<LargeInput> {
+    let mut out = vec![];
+    for &t in &[16usize, 32, 64, 100, 128, 256, 512, 1024] {
+        for delta in [-1i64, 0, 1, 2] {
+            let n = (t as i64 + delta) as usize;
+            for kind in 0..2 {
+                let b: Vec<u32> = if kind == 0 {
+                    (0..n as u32).map(|i| 3000 + i).collect()
+                } else {
+                    (0..n).map(|i| (i % 3) as u32).collect()
+                };
+                let nm = |s: &str| format!("thr-{}-{}-{}", n, if kind == 0 { "distinct" } else { "period3" }, s);
+                let mut v = b.clone();
+                v.push(77_777);
+                out.push(LargeInput { name: nm("append-one"), old: b.clone(), new: v });
+                let mut v = vec![77_777];
+                v.extend_from_slice(&b);
+                out.push(LargeInput { name: nm("prepend-one"), old: b.clone(), new: v });
+                out.push(LargeInput { name: nm("delete-first"), old: b.clone(), new: b[1..].to_vec() });
+                out.push(LargeInput { name: nm("delete-last"), old: b.clone(), new: b[..n - 1].to_vec() });
+                let mut v = b.clone();
+                v[n / 2] = 77_777;
+                out.push(LargeInput { name: nm("substitute-middle"), old: b.clone(), new: v });
+                let mut v = b.clone();
+                v.insert(n / 2, b[n / 2]);
+                out.push(LargeInput { name: nm("duplicate-middle"), old: b.clone(), new: v });
+                let mut v = b.clone();
+                v[0] = 77_777;
+                v[n - 1] = 88_888;
+                out.push(LargeInput { name: nm("substitute-first-and-last"), old: b.clone(), new: v });
+                let mut v = b[1..].to_vec();
+                v.push(88_888);
+                out.push(LargeInput { name: nm("delete-first-append-one"), old: b.clone(), new: v });
+            }
+        }
+    }
+    out
+}
+
+/// different kinds of edits interacting at a distance, and nested repetitions
+pub fn mixed_shapes(seed: u64) -> Vec<LargeInput> {
+    let mut out = vec![];
+    let mut g = Lcg(0x31337 ^ seed);
+    for &n in &[40usize, 150, 400] {
+        for kind in 0..3 {
+            let b: Vec<u32> = match kind {
+                0 => (0..n as u32).map(|i| 4000 + i).collect(),
+                1 => (0..n).map(|_| g.below(5) as u32).collect(),
+                // nested repetition: ((abc)^3 d)^m
+                _ => (0..n).map(|i| if i % 10 == 9 { 3 } else { (i % 10 % 3) as u32 }).collect(),
+            };
+            let nm = |s: &str| format!("mix-{}-{}-{}", n, ["distinct", "lcg5", "nested"][kind], s);
+            // substitution near the start, deletion in the middle, insertion near the end
+            let mut v = b.clone();
+            v[2] = 66_001;
+            v.remove(n / 2);
+            v.insert(v.len() - 2, 66_002);
+            out.push(LargeInput { name: nm("subst-start+delete-middle+insert-end"), old: b.clone(), new: v });
+            // a moved block and a substitution inside the moved block
+            let mut v = b.clone();
+            let len = n / 8;
+            let mut blk: Vec<u32> = v.drain(n / 10..n / 10 + len).collect();
+            blk[len / 2] = 66_003;
+            let to = v.len() - n / 10;
+            for (i, x) in blk.into_iter().enumerate() {
+                v.insert(to + i, x);
+            }
+            out.push(LargeInput { name: nm("moved-block-with-substitution"), old: b.clone(), new: v });
+            // every 7th item deleted and every 11th item of the rest duplicated
+            let mut v = vec![];
+            for (i, &x) in b.iter().enumerate() {
+                if i % 7 == 6 {
+                    continue;
+                }
+                v.push(x);
+                if i % 11 == 10 {
+                    v.push(x);
+                }
+            }
+            out.push(LargeInput { name: nm("periodic-deletes-and-duplicates"), old: b.clone(), new: v });
+            // two copies of the text against one (and back)
+            let mut v = b.clone();
+            v.extend_from_slice(&b);
+            out.push(LargeInput { name: nm("doubled"), old: b.clone(), new: v.clone() });
+            out.push(LargeInput { name: nm("halved"), old: v, new: b.clone() });
+            // inner third reversed
+            let mut v = b.clone();
+            v[n / 3..2 * n / 3].reverse();
+            out.push(LargeInput { name: nm("inner-third-reversed"), old: b.clone(), new: v });
+        }
+    }
+    out
+}
+
 /// inputs whose changed middle has more than 2^20 cells for a quadratic table: only ever run
 /// with LCS by the checks that ask for them (one LCS diff of this size takes about a second)
 pub fn lcs_big() -> Vec<LargeInput> {
@@ -222,10 +318,18 @@ pub fn all(tier: Tier, seed: u64) -> Vec<LargeInput> {
     }
     v.extend(asymmetric(seed));
     v.extend(many_unique(seed));
+    v.extend(threshold_sweep(seed));
+    v.extend(mixed_shapes(seed));
     v
 }
 
 pub fn find(name: &str, seed: u64) -> Option<LargeInput> {
+    if name.starts_with("thr-") {
+        return threshold_sweep(seed).into_iter().find(|f| f.name == name);
+    }
+    if name.starts_with("mix-") {
+        return mixed_shapes(seed).into_iter().find(|f| f.name == name);
+    }
     if name.starts_with("lcsbig-") {
         return lcs_big().into_iter().find(|f| f.name == name);
     }
@@ -244,6 +348,8 @@ pub fn describe(tier: Tier) -> serde_json::Value {
     serde_json::json!({
         "sizes": sizes(tier),
         "bases": BASES,
+        "threshold_sweep": "sizes T-1..T+2 for T in 16,32,64,100,128,256,512,1024 x {distinct, period 3} x 8 edits at the ends / middle",
+        "mixed_shapes": "sizes 40,150,400 x {distinct, 5-symbol random, nested repetition} x {three kinds of edits far apart, moved block with a substitution inside, periodic deletes and duplicates, doubled, halved, inner third reversed}",
         "many_unique": "300/520/700 blocks S_i M_i 0 0 0 vs S_i 0 0 0 M_i; 1100/2100 distinct items with 20 substitutions or two interleaved halves",
         "asymmetric": "side lengths 1x600, 2x530, 10x520, 40x800, 255x300, 257x256 (both orientations): unrelated, subsequence, one common item, 4-symbol random",
         "shapes": "identical; 1/3/8/n/5 evenly spread substitutions, deletions, insertions, duplicated items; block move; block appended; halves swapped; shift by one; versus empty / single; common prefix only; common suffix only; unrelated; reversed; independent random texts over 2/4/16 symbols; shuffled unique anchors with junk",
